@@ -47,7 +47,16 @@ def raw_case(draw, max_nodes=4, max_eps=3, max_steps=9, trainable=False):
                 prev = r
             edges.append(dict(recv=recv))
         episodes.append(dict(verts=verts, edges=edges))
-    return dict(names=names, conns=conns, supervisor=sup, episodes=episodes)
+    out = dict(names=names, conns=conns, supervisor=sup, episodes=episodes)
+    if trainable:
+        # nominal node rates and trainable (zero-order-hold) delay ranges: the compiled windows must be extended by
+        # ceil(rate_sender * (max - min)) entries
+        out["rates"] = {nm: draw(st.sampled_from([5, 10, 20, 40, 50])) for nm in names}
+        for c in conns:
+            if draw(st.integers(0, 2)) == 0:
+                lo = draw(st.integers(0, 10)) / 100.0
+                c["train"] = dict(min=lo, max=round(lo + draw(st.sampled_from([0.01, 0.03, 0.05, 0.11, 0.2])), 3))
+    return out
 
 
 # ------------------------------------------------------------------ building rex objects
@@ -90,12 +99,27 @@ def to_rex_graph(case):
 def to_sys_spec(case):
     """A sysgen spec whose connections carry the window sizes (delays are irrelevant for the compiled runtime)."""
     det = {"k": "det", "c": 0.0}
-    nodes = [dict(name=nm, rate=10, delay=det, exp_delay=0.0, advance=False, scheduling="FREQUENCY") for nm in case["names"]]
-    conns = [dict(src=c["src"], dst=c["dst"], blocking=False, skip=bool(c["back"]), jitter="LATEST", window=c["window"], delay=det, exp_delay=0.0) for c in case["conns"]]
+    rates = case.get("rates", {})
+    nodes = [dict(name=nm, rate=rates.get(nm, 10), delay=det, exp_delay=0.0, advance=False, scheduling="FREQUENCY") for nm in case["names"]]
+    conns = []
+    for c in case["conns"]:
+        d = det if "train" not in c else {"k": "train", "min": c["train"]["min"], "max": c["train"]["max"], "d": c["train"]["min"], "interp": "zoh"}
+        conns.append(dict(src=c["src"], dst=c["dst"], blocking=False, skip=bool(c["back"]), jitter="LATEST", window=c["window"], delay=d, exp_delay=0.0))
     return dict(nodes=nodes, conns=conns, supervisor=case["supervisor"], seed=0, episodes=[], jit={}, cls="raw")
 
 
 # ------------------------------------------------------------------ reference computations
+
+
+def window_extensions(case):
+    """{conn index: ceil(rate_sender * (max - min))} for trainable connections."""
+    import math
+
+    out = {}
+    for ci, c in enumerate(case["conns"]):
+        if "train" in c:
+            out[ci] = int(math.ceil(round(case["rates"][c["src"]] * (c["train"]["max"] - c["train"]["min"]), 9)))
+    return out
 
 
 def window_model(case, e, ci, k, extra=0):
